@@ -22,7 +22,8 @@ LEVEL = "exploration"
 DESIGN_REF = "DESIGN.md 4/C19"
 RULE = (
     "case = (configuration, operation, outside file, replacement): the 16 trees of C10 plus 10 trees with sibling versions, port-IDs "
-    "shared between a target and unrelated definitions, same-identity twins in another directory / file, and every acyclic 3-node graph of two C09 assignments; operations read_namespace and read_files for "
+    "shared between a target and unrelated definitions, same-identity twins in another directory / file, dangling references next to other versions of the missing name, references that match a definition only "
+    "up to letter case, deprecated dependencies with newer unreferenced versions, and every acyclic 3-node graph of two C09 assignments; operations read_namespace and read_files for "
     "every single target and the full target set; every definition file that ref.ns places outside the closure (lookup roots; for "
     "read_files also the targets' own roots) x 42 replacement texts (token garbage, one per static-rule class, failing assert, @print, "
     "another kind / sealing / extent than its sibling versions, references to missing or cyclic types, huge / empty / binary text). "
@@ -61,6 +62,18 @@ def extra_configs():
     # same-identity twins: the same full name and version in another directory / file, never referenced
     C["twin-in-lookup-root"] = {"root": "p/ra", "lookups": ["q/ra"], "defs": [D("p/ra", "ra.A", (1, 0)), D("p/ra", "ra.B", (1, 0), [("ra.C", (1, 0))]), D("q/ra", "ra.A", (1, 0)), D("q/ra", "ra.C", (1, 0)), D("q/ra", "ra.B", (1, 0))]}
     C["twin-in-same-root"] = {"root": "ra", "lookups": [], "defs": [D("ra", "ra.A", (1, 0)), D("ra", "ra.A", (1, 0), port=6200), D("ra", "ra.B", (1, 0))]}
+    # a DANGLING reference (the named version does not exist) while other versions of that name do: the outcome is an error, and the
+    # sibling versions are still outside the closure (they are not the definition the reference names)
+    C["dangling-version"] = {"root": "ra", "lookups": ["rb"], "defs": [D("ra", "ra.A", (1, 0), [("rb.X", (1, 5))]), D("rb", "rb.X", (1, 0)), D("rb", "rb.X", (1, 1)), D("rb", "rb.X", (2, 0)), D("rb", "rb.Y", (1, 5))], "outside_override": [1, 2, 3, 4]}
+    C["dangling-version-same-root"] = {"root": "ra", "lookups": [], "defs": [D("ra", "ra.A", (1, 0), [("ra.X", (3, 0))]), D("ra", "ra.X", (1, 0)), D("ra", "ra.X", (2, 0))], "outside_override": [1, 2], "rf_only": [0]}
+    # a reference that differs from an existing definition only by letter case (short name / namespace component): rejected, and the
+    # definition it resembles is not the one it names
+    C["case-mismatch-short-name"] = {"root": "ra", "lookups": ["rb"], "defs": [D("ra", "ra.A", (1, 0), [("rb.x", (1, 0))]), D("rb", "rb.X", (1, 0)), D("rb", "rb.Y", (1, 0))], "outside_override": [1, 2]}
+    C["case-mismatch-namespace"] = {"root": "ra", "lookups": ["rb"], "defs": [D("ra", "ra.A", (1, 0), [("rb.S.X", (1, 0))]), D("rb", "rb.s.X", (1, 0))], "outside_override": [1]}
+    # a deprecated dependency of which newer, unreferenced versions exist
+    dep = "@deprecated\n"
+    C["deprecated-dependency-with-newer-versions"] = {"root": "ra", "lookups": ["rb"], "defs": [D("ra", "ra.A", (1, 0), [("rb.X", (1, 0))], text=dep + "rb.X.1.0 r0\nuint8[1] payload\n@sealed\n"), D("rb", "rb.X", (1, 0), text=dep + "uint8[2] payload\n@sealed\n"), D("rb", "rb.X", (1, 1)), D("rb", "rb.X", (2, 0)), D("rb", "rb.X", (0, 9))]}
+    C["deprecated-chain"] = {"root": "ra", "lookups": ["rb"], "defs": [D("ra", "ra.A", (1, 0), [("rb.X", (1, 0))], text=dep + "rb.X.1.0 r0\n@sealed\n"), D("rb", "rb.X", (1, 0), [("rb.Y", (1, 0))], text=dep + "rb.Y.1.0 r0\n@sealed\n"), D("rb", "rb.Y", (1, 0), text=dep + "@sealed\n"), D("rb", "rb.Y", (1, 1)), D("rb", "rb.X", (1, 1), [("rb.Y", (1, 1))])]}
     C["target-fails"] = {"root": "ra", "lookups": ["rb"], "defs": [D("ra", "ra.A", (1, 0), text="uint8 a\n@assert false\n@sealed\n"), D("rb", "rb.X", (1, 0)), D("rb", "rb.Y", (1, 0))]}
     return C
 
@@ -121,6 +134,13 @@ def operations(cfg):
 
 
 def outside(cfg, op, tsel):
+    if "outside_override" in cfg:
+        # configurations whose outcome is an ERROR (dangling / mis-cased reference): stated by hand which definitions the targets do not name
+        if op == "rf" and tsel != [0]:
+            return None
+        if op == "rn" and cfg.get("rf_only"):
+            return None
+        return list(cfg["outside_override"])
     defs = cfg["defs"]
     all_dirs = sorted({d["dir"] for d in defs})
     if op == "rn":
